@@ -512,6 +512,16 @@ bool TypeAuditor::ViEmptySet(Cursor iter) {
 bool TypeAuditor::ViTupleDeclaration(Cursor iter) {
   assert(isLocalDeclaration || isFuncDeclaration);
   const Typification type = std::get<Typification>(currentType);
+  if (type.IsAnyType()) {
+    // Note: nothing is known about the domain (like in projection of any type) - components have any type
+    for (Index child = 0; child < iter.ChildrenCount(); ++child) {
+      currentType = type;
+      if (!VisitChild(iter, child)) {
+        return false;
+      }
+    }
+    return SetCurrent(type);
+  }
   if (!type.IsTuple() || type.T().Arity() != iter.ChildrenCount()) {
     OnError(SemanticEID::invalidBinding, iter(0).pos.start);
     return false;
